@@ -72,3 +72,9 @@ CASES += [
         (SO, "                    self._data[a,b,:,:] = \\\n                    numpy.dot(SS.T,numpy.dot(self._data[a,b,:,:],S1.T))",
          "                    self._data[a,b,:,:] = \\\n                    numpy.einsum('cx,cd,yd->xy', SS, self._data[a,b,:,:], S1)", 1)]},
 ]
+
+CASES += [
+    {"name": "dephasing factors prepared once per propagator", "kind": "mutant", "rule": "C08-G", "edits": [
+        ("quantarhei/qm/propagators/rdmpropagator.py", "        if self.has_PDeph:\n            \n            self._BOOT_DEPH()\n            \n            IR = 0.0",
+         "        if self.has_PDeph:\n            \n            if getattr(self, \"expo\", None) is None:\n                self._BOOT_DEPH()\n            \n            IR = 0.0", 1)]},
+]
